@@ -1,6 +1,7 @@
 package props
 
 import (
+	"strconv"
 	"fmt"
 	"testing"
 
@@ -176,12 +177,61 @@ func genCall(t *rapid.T) (ast.Expr, jv.Val, string) {
 	if usesVar && !gen.Chance(t, "unbound", 1, 10) {
 		e = &ast.Let{Names: []string{"v"}, Vals: []ast.Expr{ast.Lit(gen.Pick(t, "varval", []jv.Val{jv.VInt(1), jv.VStr("s"), jv.VNull()}))}, Body: e}
 	}
+	// sometimes evaluate one and the same call site once per element of an
+	// array of records that carry different argument values (whatever the
+	// call keeps or writes between two evaluations shows in the later ones)
+	if gen.Chance(t, "rows", 1, 8) {
+		rows := make([]jv.Val, rapid.IntRange(2, 4).Draw(t, "nrows"))
+		for i := range rows {
+			ms := make([]jv.Member, len(members))
+			for j, m := range members {
+				ms[j] = jv.Member{K: m.K, V: perturbArg(m.V, i)}
+			}
+			rows[i] = jv.VObj(ms)
+		}
+		members = []jv.Member{{K: "rows", V: jv.VArr(rows)}}
+		proj := gen.Pick(t, "rowsproj", []ast.Step{{Kind: ast.SListStar}, {Kind: ast.SFlatten}, {Kind: ast.SSlice, Stride: ast.I64(-1)}, {Kind: ast.SFilter, Cond: ast.Lit(jv.VBool(true))}})
+		e = ast.F("rows").With(proj, ast.Step{Kind: ast.SMultiList, Items: []ast.Expr{e}})
+		if gen.Chance(t, "rowsmap", 1, 4) {
+			e = ast.Call("map", ast.Ref(e.(*ast.Chain).Steps[1].Items[0]), ast.A(ast.F("rows")))
+		}
+		return e, jv.VObj(members), name
+	}
 	// sometimes evaluate the call inside a projection, where the current node changes
 	if gen.Chance(t, "wrap", 1, 10) {
 		members = append(members, jv.Member{K: "w", V: jv.VArr([]jv.Val{jv.VInt(1), jv.VInt(2)})})
 		e = ast.F("w").With(ast.Step{Kind: ast.SListStar}, ast.Step{Kind: ast.SMultiList, Items: []ast.Expr{ast.Bin("|", &ast.Chain{Head: ast.Head{Kind: ast.HRoot}}, e)}})
 	}
 	return e, jv.VObj(members), name
+}
+
+// perturbArg changes an argument value for row i (> 0) without changing its
+// type: containers gain a member or element, strings a character.
+func perturbArg(v jv.Val, i int) jv.Val {
+	if i == 0 {
+		return v
+	}
+	switch v.K {
+	case jv.Obj:
+		ms := append([]jv.Member{}, v.O...)
+		ms = append(ms, jv.Member{K: "row" + strconv.Itoa(i), V: jv.VInt(int64(i))})
+		return jv.VObj(ms)
+	case jv.Arr:
+		if len(v.A) == 0 {
+			return v
+		}
+		a := append([]jv.Val{}, v.A...)
+		if i%2 == 1 {
+			// rotate: same elements, another order
+			a = append(a[1:], a[0])
+		} else {
+			a = append(a, a[0])
+		}
+		return jv.VArr(a)
+	case jv.Str:
+		return jv.VStr(v.S + string(rune('a'+i)))
+	}
+	return v
 }
 
 // C02: every built-in, every argument count, every argument type.
